@@ -80,14 +80,16 @@ BODIES = {
 }
 
 
-def _run_stream(X, segments, direction):
-    """fresh layer; feed the segments from one side; -> (forwarded payloads, peer closed?, hooks, crashed)"""
+def _run_stream(X, segments, direction, bodies=()):
+    """fresh layer; feed the segments from one side; -> (forwarded payloads, peer closed?, hooks)"""
     ctx, layer, d = _setup(X, "tcp")
     src = ctx.client if direction == "client" else ctx.server
     dst = ctx.server if direction == "client" else ctx.client
     if direction == "server":
-        # an upstream connection exists only after a query: send one (id 0x0F0F) first
-        d.data(ctx.client, dnsshim.mkbuf(X.symbolic, _u(12, 2) + BODIES["header-only"](0x0F0F)))
+        # upstream replies need pending queries (and an upstream connection): the client first sends
+        # every message of the stream as a query, so that each intact upstream message echoes a pending id
+        for b in bodies:
+            d.data(ctx.client, dnsshim.mkbuf(X.symbolic, _u(len(b), 2) + b))
     base = len(d.raw_to(dst))
     for seg in segments:
         try:
@@ -109,7 +111,7 @@ def _same_runs(X, a, b, what):
     X.check(ha == hb, f"C27/framing/{what}/hooks-differ", f"hooks: unsplit {ha}, split {hb}")
 
 
-def _against_reference(X, stream, bodies, run, what):
+def _against_reference(X, stream, bodies, run, what, direction="client"):
     """judge one run against the reference splitter.  A frame shorter than a DNS header must close the
     connection; a frame that is exactly one of the intact messages must be forwarded; any other frame
     (misaligned garbage) may be rejected or accepted — mitmproxy's own decision is followed."""
@@ -122,6 +124,10 @@ def _against_reference(X, stream, bodies, run, what):
             X.reach("short-frame-closed")
             return
         intact = any(_eq_items(fr, b) for b in bodies)
+        if direction == "server" and not intact and not closed and (k >= len(fwd) or not _eq_items(fwd[k][2:], fr)):
+            # a garbage frame from upstream that parses as a message answering no pending query may be ignored
+            X.reach("garbage-frame-ignored")
+            continue
         if k < len(fwd):
             X.check(_eq_items(fwd[k][2:], fr) and _eq_items(fwd[k][:2], _u(len(fr), 2)), f"C27/framing/{what}/wrong-message",
                     f"forwarded message {k} is not reference frame {k}")
@@ -164,10 +170,10 @@ def h_segmentation(X, max_msgs, max_cuts):
         for c in cuts + [len(stream)]:
             segs.append(stream[prev:c])
             prev = c
-        whole = _run_stream(X, [stream], direction)
-        split = _run_stream(X, segs, direction)
+        whole = _run_stream(X, [stream], direction, bodies)
+        split = _run_stream(X, segs, direction, bodies)
         _same_runs(X, whole, split, "split")
-        _against_reference(X, stream, bodies, whole, "unsplit")
+        _against_reference(X, stream, bodies, whole, "unsplit", direction)
         X.reach("compared")
         if any(len(s) == 1 for s in segs):
             X.reach("one-octet-segment")
@@ -186,10 +192,10 @@ def h_length_prefix(X, max_msgs):
             bodies.append(b)
             stream += (_u(L, 2) if i == 0 else _u(len(b), 2)) + b
         cut = X.choose("cut", list(range(0, len(stream) + 1)))
-        whole = _run_stream(X, [stream], direction)
-        split = _run_stream(X, [stream[:cut], stream[cut:]], direction)
+        whole = _run_stream(X, [stream], direction, bodies)
+        split = _run_stream(X, [stream[:cut], stream[cut:]], direction, bodies)
         _same_runs(X, whole, split, "length")
-        _against_reference(X, stream, bodies, whole, "length")
+        _against_reference(X, stream, bodies, whole, "length", direction)
         X.reach("compared")
 
 
@@ -208,7 +214,7 @@ def _decode_payload(X, p, transport, ev):
         X.fail(f"C27/{ev}/undecodable-reply", f"payload to the client is not a DNS message: {e}")
 
 
-def h_history(X, N, transports=("udp", "tcp")):
+def h_history(X, N, transports=("udp", "tcp"), actions=("pass", "respond", "error"), open_may_fail=True, hook_oracle=True):
     with dnsshim.installed(X.symbolic, step_limit=400000):
         X.opaque_str(True)
         from mitmproxy import flow as mflow
@@ -220,10 +226,10 @@ def h_history(X, N, transports=("udp", "tcp")):
 
         def on_hook(hook):
             flow = hook.args()[0]
-            if not hasattr(flow, "request"):
+            if hook_oracle and not hasattr(flow, "request"):
                 X.fail(f"C27/{state['ev']}/{hook.name}-hook-without-request", f"{hook.name} fired for a flow that has no request (event: {state['ev']})")
             if hook.name == "dns_request":
-                act = X.choose("request_hook", ["pass", "respond", "error"])
+                act = X.choose("request_hook", list(actions))
                 state["act"] = act
                 if act == "respond":
                     flow.response = flow.request.succeed([])
@@ -232,7 +238,7 @@ def h_history(X, N, transports=("udp", "tcp")):
             return True
 
         def on_open(cmd):
-            fail = X.boolean("open_fails")
+            fail = X.boolean("open_fails") if open_may_fail else False
             state["open_failed"] = fail
             return "connection refused" if fail else None
 
@@ -283,15 +289,15 @@ def h_history(X, N, transports=("udp", "tcp")):
                     flags = 0x8080 | (qd["opcode"] << 11) | (qd["rd"] << 8)
                     rr = dnsref.RR(qd["qname"], 1, 1, 60, (("raw", "rdata", [192, 0, 2, 1]),))
                     msg = dnsref.Msg(qd["id"], flags, [dnsref.Q(qd["qname"], 1, 1)], [rr], [], [])
-                    d.data(ctx.server, dnsshim.mkbuf(X.symbolic, frame(dnsref.encode(msg, compress_owner=lambda s, i: True))))
                     X.reach("reply-echo")
+                    d.data(ctx.server, dnsshim.mkbuf(X.symbolic, frame(dnsref.encode(msg, compress_owner=lambda s, i: True))))
                 else:
                     rid = X.bv(f"rid{step}", 16)
                     for qd in queries:
                         X.assume(rid != qd["id"])
                     msg = dnsref.Msg(rid, 0x8180, [dnsref.Q((b"unsolicited", b"test"), 1, 1)], [], [], [])
-                    d.data(ctx.server, dnsshim.mkbuf(X.symbolic, frame(dnsref.encode(msg))))
                     X.reach("reply-unknown-id")
+                    d.data(ctx.server, dnsshim.mkbuf(X.symbolic, frame(dnsref.encode(msg))))
             except (symx.Unsupported, symx.Violation):
                 raise
             except Exception as e:  # noqa
@@ -321,7 +327,11 @@ def h_history(X, N, transports=("udp", "tcp")):
                     X.check(len(new) == 1 and new[0].id == qd["id"], "C27/hook-response/not-delivered", "the addon's response was not delivered with the query's id")
                     X.reach("hook-response")
                 elif state["act"] == "pass":
-                    X.check(len(new) == 0, "C27/query/premature-reply", "a reply was sent before upstream answered")
+                    if len(new) != 0:
+                        reused = any(bool(dnsshim._eqc(o["id"], qd["id"])) for o in queries[:-1])
+                        X.fail("C27/id-reuse/stale-error-replayed" if reused else "C27/query/premature-reply",
+                               f"query {len(queries) - 1} was passed by the addon and upstream is reachable, yet it was answered at once (rcode {new[0].flags & 0xF})"
+                               + (" — an earlier exchange with the same message id had ended in an error" if reused else ""))
                     fw = d.raw_to(ctx.server)
                     X.check(len(fw) >= 1, "C27/query/not-forwarded", "query was not forwarded upstream")
                     X.reach("query-forwarded")
@@ -339,18 +349,18 @@ def obligations(tier):
         Symx("tcp-segmentation", lambda X: h_segmentation(X, 2 if q else 3, 1 if q else 2),
              bounds=f"streams of 1..{2 if q else 3} well-formed messages (3-entry menu) + tail in {{none, 1 octet, bare prefix, half message}}, from the client or from the server; "
                     f"every placement of {1 if q else '1..2'} cut point(s); unsplit vs split vs reference splitter",
-             encoded=ENCODED[:2], must_reach=["compared", "all-forwarded", "incomplete-tail-buffered", "one-octet-segment"], stubs=STUBS, parallel_depth=3, budget_s=300 if q else 1500),
+             encoded=ENCODED[:2], must_reach=["compared", "all-forwarded", "incomplete-tail-buffered", "one-octet-segment"], stubs=STUBS, parallel_depth=3, budget_s=1500 if q else 3600),
         Symx("tcp-length-prefix", lambda X: h_length_prefix(X, 2),
              bounds="1..2 messages (2-entry menu), the first length prefix any 16-bit value (zero / < 12 / short / exact / long / beyond the stream), one cut point anywhere; from client or server",
              encoded=ENCODED[:2], must_reach=["compared", "zero-length-closed", "short-frame-closed", "garbage-frame-rejected", "all-forwarded", "incomplete-tail-buffered"],
-             stubs=STUBS, parallel_depth=3, budget_s=300 if q else 1500),
-        Symx("history-udp", lambda X: h_history(X, n_hist + 1, ("udp",)),
-             bounds=f"as 'history' with <= {n_hist + 1} events, UDP only", encoded=ENCODED,
-             must_reach=["end", "two-queries", "reply-echo", "reply-unknown-id", "servfail-open-failed", "servfail-hook-error", "hook-response", "query-forwarded"],
-             stubs=STUBS, parallel_depth=4, budget_s=400 if q else 1500),
+             stubs=STUBS, parallel_depth=3, budget_s=1500 if q else 3600),
+        Symx("history-long", lambda X: h_history(X, n_hist + 1, ("udp",), ("pass", "respond"), False, False),
+             bounds=f"as 'history' with <= {n_hist + 1} events, restricted to UDP, dns_request action in {{pass, set response}}, upstream connect succeeds; only the messages sent to the client are judged (hook oracle off)", encoded=ENCODED,
+             must_reach=["end", "two-queries", "reply-echo", "reply-unknown-id", "hook-response", "query-forwarded"],
+             stubs=STUBS, parallel_depth=4, budget_s=1500 if q else 3600),
         Symx("history", lambda X: h_history(X, n_hist),
              bounds=f"every history of <= {n_hist} events over {{client query (id, op-code, RD symbolic; equal or different ids), upstream reply echoing any earlier query (pending / answered / duplicate), "
                     "upstream reply with an id no query used}} x dns_request action {pass, set response, set error} x upstream connect {ok, fails}; UDP and TCP",
              encoded=ENCODED, must_reach=["end", "two-queries", "reply-echo", "reply-unknown-id", "servfail-open-failed", "servfail-hook-error", "hook-response", "query-forwarded"],
-             stubs=STUBS, parallel_depth=4, budget_s=300 if q else 1500),
+             stubs=STUBS, parallel_depth=4, budget_s=1500 if q else 3600),
     ]
